@@ -829,7 +829,9 @@ def convolve_templates(
         # Time reverse the template (for convolution)
         temp_pad = np.roll(temp_pad[::-1], 1)
         temp_norm = normalize_template(temp_pad)
-        conv = np.fft.irfft(data_fft * np.fft.rfft(temp_norm))
+        # invert at the padded length: the default, 2 * (nbins_fft - 1), is one sample
+        # short (and not the inverse) when that length is odd
+        conv = np.fft.irfft(data_fft * np.fft.rfft(temp_norm), len(data_pad))
         convs[itemp, :] = conv[:nbins]
     return convs
 
